@@ -451,7 +451,62 @@ def phase_strings(exe, rep, tier):
     rep.samples.append({"phase": "strings", "tz": TZ_STRINGS[0]})
 
 
+def replay(exe, path):
+    """re-run one recorded disagreement twice: tz-rs answer vs both references"""
+    v = json.load(open(path))
+    c = v["case"]
+    bad = False
+    for _ in range(2):
+        if c["kind"] in ("forward", "right", "load"):
+            f = c["file"]
+            t = c.get("t", c.get("utc", 0))
+            r = tzmc_dump(exe, ["F " + f, "T %d" % t])
+            z = read_tzif(f)
+            glibc_select(f)
+            T = to_count(z["leaps"], t) if c["kind"] == "right" else t
+            gl = glibc_lookup(T)
+            zi = None
+            if c["kind"] == "forward" and DT_MIN <= t <= DT_MAX:
+                zi = zi_lookup(zoneinfo.ZoneInfo.from_file(open(f, "rb"), key="x"), t)
+            print("tz-rs:", r, "| glibc:", gl, "| zoneinfo:", zi)
+            got, _ = parse_T(r[1]) if r[0].startswith("OK") else (None, None)
+            if got is None or (got[0], got[1]) != (gl[0], gl[1]) or (zi is not None and zi != (got[0], got[1])):
+                bad = True
+        elif c["kind"] in ("mktime", "mktime_gap"):
+            f, loc = c["file"], c["local"]
+            dt = utc_fields(loc)
+            r = tzmc_dump(exe, ["F " + f, "L %d %d %d %d %d %d" % (dt.year, dt.month, dt.day, dt.hour, dt.minute, dt.second)])
+            z = read_tzif(f)
+            offs = sorted(set(o for o, _, _ in z["types"]))
+            zi = zoneinfo.ZoneInfo.from_file(open(f, "rb"), key="x")
+            glibc_select(f)
+            exp_zi = sorted(set(loc - o for o in offs if zi_lookup(zi, loc - o)[0] == o))
+            exp_gl = sorted(set(loc - o for o in offs if glibc_lookup(loc - o)[0] == o))
+            gaps = (ref_gap(lambda u: zi_lookup(zi, u)[0], loc, offs), ref_gap(lambda u: glibc_lookup(u)[0], loc, offs))
+            print("tz-rs:", r[1], "| zoneinfo valid:", exp_zi, "| glibc valid:", exp_gl, "| reference gaps:", gaps)
+            valid_part, _, sk = r[1][2:].partition("|")
+            got = sorted(int(x) for x in valid_part.split(",") if x)
+            got_sk = sorted(tuple(int(q) for q in x.split(":")) for x in sk.split(",") if x)
+            if got != exp_zi or got != exp_gl:
+                bad = True
+            if not exp_zi and gaps[0] != "complex" and got_sk != ([gaps[0]] if gaps[0] else []):
+                bad = True
+        elif c["kind"] == "string":
+            s_, t = c["tz"], c.get("t", 0)
+            r = tzmc_dump(exe, ["S " + s_, "T %d" % t])
+            glibc_select(s_, is_file=False)
+            gl = glibc_lookup(t)
+            print("tz-rs:", r, "| glibc:", gl)
+            got, _ = parse_T(r[1]) if r[0].startswith("OK") else (None, None)
+            if got is None or got != (gl[0], gl[1], 1 if gl[2] > 0 else 0):
+                bad = True
+    print("REPLAY: violation reproduced" if bad else "REPLAY: case passes")
+    return 1 if bad else 0
+
+
 def main():
+    if sys.argv[1] == "--replay":
+        return replay(sys.argv[2], sys.argv[3])
     tier, exe, evidence, replay_dir = sys.argv[1], sys.argv[2], sys.argv[3], sys.argv[4]
     t0 = time.time()
     rep = Report(replay_dir)
